@@ -271,23 +271,26 @@ class C17Runner:
 
 # ------------------------------------------------------------------ C18
 
-def impl_select(kind, dims, sel, arg):
+def impl_select(kind, dims, sel, arg, nm="r"):
     g = Graph()
     if kind == "tree":
-        g.add_nodes_as_tree("r", dims, "router", "link", connect=True)
+        g.add_nodes_as_tree(nm, dims, "router", "link", connect=True)
     else:
-        g.add_nodes_as_array("r", tuple(dims), "router", edge_type="link", connect=False)
+        g.add_nodes_as_array(nm, tuple(dims), "router", edge_type="link", connect=False)
     try:
         if sel == "range":
-            return {"nodes": g.get_nodes_from_range("r", [tuple(p) for p in arg])}
+            return {"nodes": g.get_nodes_from_range(nm, [tuple(p) for p in arg])}
         if sel == "idx":
-            return {"nodes": g.get_nodes_from_idx("r", arg)}
-        return {"nodes": g.get_nodes_from_lvl("r", arg)}
+            return {"nodes": g.get_nodes_from_idx(nm, arg)}
+        return {"nodes": g.get_nodes_from_lvl(nm, arg)}
     except Exception as e:  # pylint: disable=broad-except
         return {"err": type(e).__name__}
 
 
-def expected_range(dims, rng):
+NAMES = ["r", "l2_rt"]
+
+
+def expected_range(dims, rng, nm="r"):
     """the specification: cartesian product, first dimension outermost; None if a node is missing"""
     seqs = []
     for (a, b) in rng:
@@ -297,7 +300,7 @@ def expected_range(dims, rng):
     for t in itertools.product(*seqs):
         if len(t) != len(dims) or any(not (0 <= i < d) for i, d in zip(t, dims)):
             return None
-        out.append("r_" + "_".join(str(i) for i in t))
+        out.append(nm + "_" + "_".join(str(i) for i in t))
     return out
 
 
@@ -336,33 +339,34 @@ class C18Runner:
         for off in range(0, len(cases), CH):
             chunk = cases[off:off + CH]
             reqs = []
-            for kind, dims, sel, arg in chunk:
-                o = {"cmd": "select", "kind": kind, "dims": dims, "sel": sel}
+            for ci, (kind, dims, sel, arg) in enumerate(chunk):
+                o = {"cmd": "select", "kind": kind, "dims": dims, "sel": sel, "name": NAMES[(off + ci) % 2]}
                 o[{"range": "range", "idx": "idx", "lvl": "lvl"}[sel]] = arg
                 reqs.append(o)
             res = call_many(drv, reqs)
-            for (kind, dims, sel, arg), r in zip(chunk, res):
+            for ci, ((kind, dims, sel, arg), r) in enumerate(zip(chunk, res)):
                 if "error" in r:
                     raise RuntimeError(r["error"])
                 stats["evaluated"] += 1
-                ir = impl_select(kind, dims, sel, arg)
+                nm = NAMES[(off + ci) % 2]
+                ir = impl_select(kind, dims, sel, arg, nm)
                 if "nodes" in ir:
                     stats["returned"] += 1
                 # the property on the implementation
                 if sel == "range":
-                    exp = expected_range(dims, arg)
+                    exp = expected_range(dims, arg, nm)
                     good = (exp is None and "err" in ir) or (exp is not None and ir.get("nodes") == exp)
                 elif sel == "idx":
                     inb = len(arg) == len(dims) and all(0 <= i < d for i, d in zip(arg, dims))
-                    good = (inb and ir.get("nodes") == ["r_" + "_".join(map(str, arg))]) or (not inb and "err" in ir)
+                    good = (inb and ir.get("nodes") == [nm + "_" + "_".join(map(str, arg))]) or (not inb and "err" in ir)
                 else:
                     lvl = arg
-                    exp = ["r_" + "_".join(map(str, t)) for t in itertools.product(*[range(x) for x in dims[:lvl + 1]])] \
+                    exp = [nm + "_" + "_".join(map(str, t)) for t in itertools.product(*[range(x) for x in dims[:lvl + 1]])] \
                         if lvl < len(dims) else []
                     good = ir.get("nodes") == exp
                 if not good and not rep.violations:
                     f = {"claim": "selector-result", "site": f"{kind}{dims} {sel} {arg}", "detail": json.dumps(ir)[:200]}
-                    rep.finding(f, {"property": pid, "finding": f, "kind": kind, "dims": dims, "sel": sel, "arg": arg})
+                    rep.finding(f, {"property": pid, "finding": f, "kind": kind, "dims": dims, "sel": sel, "arg": arg, "name": nm})
                 same = ("nodes" in r) == ("nodes" in ir) and (("nodes" not in r) or r["nodes"] == ir["nodes"])
                 if not same:
                     stats["model-mismatch"] += 1
@@ -380,10 +384,11 @@ class C18Runner:
                 "disagreements_checked": stats["model-mismatch"], "status_counts": dict(stats)}
 
     def replay(self, pid, payload, rep):
-        ir = impl_select(payload["kind"], payload["dims"], payload["sel"], payload["arg"])
+        nm = payload.get("name", "r")
+        ir = impl_select(payload["kind"], payload["dims"], payload["sel"], payload["arg"], nm)
         print(ir)
         if payload["sel"] == "range":
-            exp = expected_range(payload["dims"], payload["arg"])
+            exp = expected_range(payload["dims"], payload["arg"], nm)
             if not ((exp is None and "err" in ir) or (exp is not None and ir.get("nodes") == exp)):
                 rep.finding(payload["finding"], payload)
         return rep.exit_code()
